@@ -267,31 +267,32 @@ def evalE (db : Db) : Nat → List Row → Row → Expr → Except Err Value
 
 def evalCase (db : Db) : Nat → List Row → Row → List (Expr × Expr) → Expr → Except Err Value
   | 0, _, _, _, _ => .error .fuel
-  | f + 1, env, row, whens, els =>
-    match whens with
-    | [] => evalE db f env row els
-    | (w, t) :: rest => do
-      let c ← evalE db f env row w
-      if c == .bool true then evalE db f env row t else evalCase db f env row rest els
+  | f + 1, env, row, whens, els => do
+    -- first WHEN that is TRUE decides; list iteration does not consume depth fuel
+    let r ← whens.foldlM (fun (acc : Option Value) (wt : Expr × Expr) =>
+      match acc with
+      | some v => pure (some v)
+      | none => do
+        let c ← evalE db f env row wt.1
+        if c == .bool true then do pure (some (← evalE db f env row wt.2)) else pure none) none
+    match r with
+    | some v => pure v
+    | none => evalE db f env row els
 
 def evalCoalesce (db : Db) : Nat → List Row → Row → List Expr → Except Err Value
   | 0, _, _, _ => .error .fuel
-  | f + 1, env, row, xs =>
-    match xs with
-    | [] => .ok .null
-    | x :: rest => do
-      let v ← evalE db f env row x
-      if v != .null then pure v else evalCoalesce db f env row rest
+  | f + 1, env, row, xs => do
+    let r ← xs.foldlM (fun (acc : Option Value) x =>
+      match acc with
+      | some v => pure (some v)
+      | none => do
+        let v ← evalE db f env row x
+        pure (if v != .null then some v else none)) none
+    pure (r.getD .null)
 
 def evalList (db : Db) : Nat → List Row → Row → List Expr → Except Err (List Value)
   | 0, _, _, _ => .error .fuel
-  | f + 1, env, row, xs =>
-    match xs with
-    | [] => .ok []
-    | x :: rest => do
-      let v ← evalE db f env row x
-      let vs ← evalList db f env row rest
-      pure (v :: vs)
+  | f + 1, env, row, xs => xs.mapM fun x => evalE db f env row x
 
 /-- `x IN (ys)` in three-valued logic. -/
 def inSem (x : Value) (ys : List Value) : Except Err Value :=
@@ -301,41 +302,24 @@ def inSem (x : Value) (ys : List Value) : Except Err Value :=
 
 def evalRows (db : Db) : Nat → List Row → List (List Expr) → Except Err (List Row)
   | 0, _, _ => .error .fuel
-  | f + 1, env, rows =>
-    match rows with
-    | [] => .ok []
-    | r :: rest => do
-      let v ← evalList db f env [] r
-      let vs ← evalRows db f env rest
-      pure (v :: vs)
+  | f + 1, env, rows => rows.mapM fun r => evalList db f env [] r
 
 /-- Rows of `rs` for which `p` is TRUE. -/
 def filterRows (db : Db) : Nat → List Row → Expr → List Row → Except Err (List Row)
   | 0, _, _, _ => .error .fuel
-  | f + 1, env, p, rs =>
-    match rs with
-    | [] => .ok []
-    | r :: rest => do
+  | f + 1, env, p, rs => rs.filterMapM fun r => do
       let c ← evalE db f env r p
-      let tl ← filterRows db f env p rest
-      pure (if c == .bool true then r :: tl else tl)
+      pure (if c == .bool true then some r else none)
 
 def mapRows (db : Db) : Nat → List Row → List Expr → List Row → Except Err (List Row)
   | 0, _, _, _ => .error .fuel
-  | f + 1, env, es, rs =>
-    match rs with
-    | [] => .ok []
-    | r :: rest => do
-      let v ← evalList db f env r es
-      let tl ← mapRows db f env es rest
-      pure (v :: tl)
+  | f + 1, env, es, rs => rs.mapM fun r => evalList db f env r es
 
 def evalAggs (db : Db) : Nat → List Row → List AggSpec → List Row → Except Err (List Value)
   | 0, _, _, _ => .error .fuel
-  | f + 1, env, specs, rows =>
-    match specs with
-    | [] => .ok []
-    | .mk fn dist arg filt :: rest => do
+  | f + 1, env, specs, rows => specs.mapM fun spec =>
+    match spec with
+    | .mk fn dist arg filt => do
       let rows' ← match filt with
         | none => pure rows
         | some p => filterRows db f env p rows
@@ -345,37 +329,28 @@ def evalAggs (db : Db) : Nat → List Row → List AggSpec → List Row → Exce
           let vs ← mapRows db f env [arg] rows'
           pure (vs.map fun r => r.headD .null)
       let vals := if dist then dedupVals vals else vals
-      let v ← aggEval fn vals rows'.length
-      let vs ← evalAggs db f env rest rows
-      pure (v :: vs)
+      aggEval fn vals rows'.length
 
 def evalGroups (db : Db) : Nat → List Row → List AggSpec → List (Row × List Row) → Except Err (List Row)
   | 0, _, _, _ => .error .fuel
-  | f + 1, env, specs, groups =>
-    match groups with
-    | [] => .ok []
-    | (k, rows) :: rest => do
+  | f + 1, env, specs, groups => groups.mapM fun (k, rows) => do
       let a ← evalAggs db f env specs rows
-      let tl ← evalGroups db f env specs rest
-      pure ((k ++ a) :: tl)
+      pure (k ++ a)
 
 /-- One result block per grouping set: keys outside the set are NULL in the output and do not
 take part in the grouping. -/
 def evalSets (db : Db) : Nat → List Row → List AggSpec → List (List Nat) → List Row → List Row → Except Err (List Row)
   | 0, _, _, _, _, _ => .error .fuel
-  | f + 1, env, specs, sets, keyedAll, rs =>
-    match sets with
-    | [] => .ok []
-    | s :: rest => do
+  | f + 1, env, specs, sets, keyedAll, rs => do
+    let blocks ← sets.mapM fun s => do
       let mask (k : Row) : Row := (k.zipIdx).map fun (v, i) => if s.contains i then v else .null
       let keyed := keyedAll.map mask
       let ks := dedup keyed
       let grouped := ks.map fun k => (k, (keyed.zip rs).filterMap fun (k', r) => if rowEq k k' then some r else none)
       -- dialect fact (DESIGN appendix F): over empty input the engine emits no row for any grouping
       -- set, including the empty one (PostgreSQL would emit the grand-total row)
-      let block ← evalGroups db f env specs grouped
-      let tl ← evalSets db f env specs rest keyedAll rs
-      pure (block ++ tl)
+      evalGroups db f env specs grouped
+    pure blocks.flatten
 
 def evalQ (db : Db) : Nat → List Row → Query → Except Err (List Row)
   | 0, _, _ => .error .fuel
